@@ -194,6 +194,19 @@ func checkC06(c *Ctx) {
 			if skip && len(stores) > 0 {
 				_, w = reach(f, nil, isInstr(add), isInstr(stores[0].site()), nil)
 			}
+			// the other way a registration reaches a dialer: connecting transports (the station connects back and
+			// relays to reg.Covert) - only for a delivery whose covert was replaced by the checked literal
+			for _, cl := range findDeep(f, shortIs("handleConnectingTpReg"), 2) {
+				okc := guardedDeep(cl, Atom{"(" + orderEq(`""`, res0) + ")", false})
+				before := false
+				for _, sl := range stores {
+					if alwaysBefore(cl, sl, nil) {
+						before = true
+					}
+				}
+				r.Check(okc && before, "C06.2", "ingestRegistration: a registration is handed to the connecting transports only after its covert was checked and replaced", cl.call.Pos(), fnName(cl.in), "must-pass store of the checked literal + non-empty guard",
+					"a delivery whose covert is still the client's own string (never checked, e.g. a re-sent registration) is handed to a connecting transport: the station connects back and Proxy dials that string")
+			}
 			g := guardedDeep(addL, Atom{"(" + orderEq(`""`, res0) + ")", false})
 			argOK := guardL.toRoot(pathOf(argsOf(guardL.common())[0])) == "reg.Covert" && addL.toRoot(pathOf(argsOf(addL.common())[0])) == "reg"
 			if skip || !g || !argOK {
@@ -246,6 +259,61 @@ func checkC06(c *Ctx) {
 		}
 		if n == 0 {
 			r.Unk("C06.2", "register: Valid = true", f.Pos(), fnName(f), "store not found")
+		}
+	}
+
+	// ---- C06.6 the domain patterns mean what the operator wrote: they are compiled from the configured strings as they
+	// are and matched against the host as it is (a regular expression is not text: lower-casing "\\S+" or "\\Alocalhost"
+	// silently changes what it matches)
+	r.Rule("C06.6", "domain patterns are compiled from the configured text unchanged and matched against the unchanged host", 2)
+	if f := c.fn("C06.6", lib, "RegConfig", "ParseBlocklists"); f != nil {
+		n := 0
+		eachInstr(f, func(in ssa.Instruction) {
+			call, ok := in.(*ssa.Call)
+			if !ok {
+				return
+			}
+			switch calleeName(&call.Call) {
+			case "regexp.Compile", "regexp.MustCompile", "regexp.CompilePOSIX", "regexp.MustCompilePOSIX":
+			default:
+				return
+			}
+			n++
+			okk := false
+			switch x := stripConv(call.Call.Args[0]).(type) {
+			case *ssa.UnOp:
+				if ia, isIA := x.X.(*ssa.IndexAddr); isIA && x.Op == token.MUL {
+					okk = pathOf(ia.X) == P(f, 0)+".CovertBlocklistDomains"
+				}
+			case *ssa.Extract:
+				if nx, isNext := x.Tuple.(*ssa.Next); isNext && x.Index == 2 {
+					if rg, isR := nx.Iter.(*ssa.Range); isR {
+						okk = pathOf(rg.X) == P(f, 0)+".CovertBlocklistDomains"
+					}
+				}
+			}
+			r.Check(okk && calleeName(&call.Call) == "regexp.Compile", "C06.6", "ParseBlocklists: pattern compiled from the configured string itself", call.Pos(), fnName(f), firstN(pathOf(call.Call.Args[0]), 80),
+				"the blocklisted-domain pattern is compiled from "+firstN(pathOf(call.Call.Args[0]), 60)+", not from the configured text (or with another syntax): escapes such as \\S, \\D, \\W, \\A change meaning under a text transformation and the hosts the operator blocked are admitted")
+		})
+		if n == 0 {
+			r.Unk("C06.6", "ParseBlocklists: regexp.Compile", f.Pos(), fnName(f), "no pattern compilation found")
+		}
+	}
+	if f := c.fn("C06.6", lib, "RegConfig", "isBlocklistedCovertDomain"); f != nil && len(f.Params) == 2 {
+		n := 0
+		eachInstr(f, func(in ssa.Instruction) {
+			call, ok := in.(*ssa.Call)
+			if !ok || !strings.HasPrefix(calleeName(&call.Call), "(*regexp.Regexp).") {
+				return
+			}
+			n++
+			okk := calleeName(&call.Call) == "(*regexp.Regexp).MatchString" && len(call.Call.Args) == 2 && call.Call.Args[1] == ssa.Value(f.Params[1]) &&
+				strings.HasPrefix(pathOf(call.Call.Args[0]), P(f, 0)+".covertBlocklistDomains[")
+			r.Check(okk, "C06.6", "isBlocklistedCovertDomain: every compiled pattern is matched against the host as given", call.Pos(), fnName(f), firstN(pathOf(call), 80),
+				"the host is transformed before matching, or matched with something other than the compiled configured patterns")
+		})
+		if n == 0 {
+			r.Unk("C06.6", "isBlocklistedCovertDomain: MatchString", f.Pos(), fnName(f), "no pattern match found")
 		}
 	}
 
